@@ -21,6 +21,8 @@ pub struct FwCase {
     pub calls: Vec<Call>,
     pub rng_seed: u64,
     pub extreme: u64,
+    /// non-interference probe: index of a draw-independent machine that never signals
+    pub ni: Option<usize>,
 }
 
 pub fn ev_str(e: &TriggerEvent) -> String {
@@ -81,9 +83,12 @@ fn fmt_log_out(out: &mut String, log: &[Entry]) {
             Entry::DistRaw { bits } => {
                 let _ = write!(s, " d:{:016x}", bits);
             }
-            // (ag-sim: temporary, newer hook entries are not printed by this harness version)
-            #[allow(unreachable_patterns)]
-            _ => {}
+            Entry::Counter { mi, a_old, a_new, b_old, b_new } => {
+                let _ = write!(s, " c:{}:{}:{}:{}:{}", mi, a_old, a_new, b_old, b_new);
+            }
+            Entry::Limit { mi, value, decrement } => {
+                let _ = write!(s, " l:{}:{}:{}", mi, value, *decrement as u8);
+            }
         }
     }
     let _ = writeln!(out, "{}", s);
@@ -124,6 +129,8 @@ fn fmt_snapshot(out: &mut String, f: &Framework<Vec<Machine>, ScriptRng, VInstan
         let _ = writeln!(out, "o RC {} {} {}", mi, r.counter_a, r.counter_b);
         let _ = writeln!(out, "o RP {} {} {}", mi, r.padding_sent, r.normal_sent);
         let _ = writeln!(out, "o RB {} {}", mi, r.blocking_duration.as_nanos());
+        let z = s.counter_zeroed_once.get(mi).copied().unwrap_or((false, false));
+        let _ = writeln!(out, "o RZ {} {} {}", mi, z.0 as u8, z.1 as u8);
     }
     let _ = writeln!(
         out,
@@ -140,7 +147,7 @@ fn fmt_snapshot(out: &mut String, f: &Framework<Vec<Machine>, ScriptRng, VInstan
         Some(None) => "all".to_string(),
         Some(Some(i)) => format!("x{}", i),
     };
-    let _ = writeln!(out, "o GS {} {} {}", sig, s.counter_zeroed_once.iter().any(|x| x.0) as u8, s.counter_zeroed_once.iter().any(|x| x.1) as u8);
+    let _ = writeln!(out, "o GS {}", sig);
 }
 
 fn panic_class(p: &Box<dyn std::any::Any + Send>) -> &'static str {
@@ -168,6 +175,9 @@ pub fn run_case(c: &FwCase) -> String {
         let _ = writeln!(out, "m {}", hex(&genm::machine_bytes(m)));
     }
     let _ = writeln!(out, "rng {} {}", c.rng_seed, c.extreme);
+    if let Some(p) = c.ni {
+        let _ = writeln!(out, "probe {}", p);
+    }
     maybenot::verif::enable(true);
     let _ = maybenot::verif::take();
     let rng = ScriptRng::new(c.rng_seed, c.extreme);
@@ -297,7 +307,7 @@ pub fn gen_general(p: &mut Prng, id: String) -> FwCase {
     let single = p.chance(1, 2);
     let wild = p.chance(1, 2);
     let calls = gen_history(p, n, single, 80, wild);
-    FwCase { id, kind: "general".into(), machines, fp, fb, t0: 0, calls, rng_seed: p.next(), extreme: *p.pick(&[0, 0, 4, 16]) }
+    FwCase { id, kind: "general".into(), machines, fp, fb, t0: 0, calls, rng_seed: p.next(), extreme: *p.pick(&[0, 0, 4, 16]), ni: None }
 }
 
 /// Actions only (no hooks): used for the determinism / clone comparison.
@@ -359,13 +369,18 @@ pub fn parse_cases(text: &str) -> Vec<FwCase> {
         let ws: Vec<&str> = line.split_whitespace().collect();
         match ws.as_slice() {
             ["case", id, kind @ ..] => {
-                cur = Some(FwCase { id: id.to_string(), kind: kind.join(" "), machines: vec![], fp: 0.0, fb: 0.0, t0: 0, calls: vec![], rng_seed: 0, extreme: 0 });
+                cur = Some(FwCase { id: id.to_string(), kind: kind.join(" "), machines: vec![], fp: 0.0, fb: 0.0, t0: 0, calls: vec![], rng_seed: 0, extreme: 0, ni: None });
             }
             ["m", h] => {
                 if let (Some(c), Some(b)) = (cur.as_mut(), crate::util::unhex(h)) {
                     if let Ok(m) = bincode::DefaultOptions::new().deserialize::<Machine>(&b) {
                         c.machines.push(m);
                     }
+                }
+            }
+            ["probe", i] => {
+                if let Some(c) = cur.as_mut() {
+                    c.ni = i.parse().ok();
                 }
             }
             ["rng", s, e] => {
@@ -396,4 +411,60 @@ pub fn parse_cases(text: &str) -> Vec<FwCase> {
         }
     }
     res
+}
+
+/// Non-interference (C10): the probe machine's actions in the combined run equal its actions when
+/// run alone on the projected history (events naming other machines mapped to an unknown id).
+pub fn ni_line(c: &FwCase) -> Option<String> {
+    let pos = c.ni?;
+    let combined = run_actions_only(c, None);
+    let proj = |e: &TriggerEvent| -> TriggerEvent {
+        let map = |m: &MachineId| if m.into_raw() == pos { MachineId::from_raw(0) } else { MachineId::from_raw(usize::MAX) };
+        match e {
+            TriggerEvent::PaddingSent { machine } => TriggerEvent::PaddingSent { machine: map(machine) },
+            TriggerEvent::BlockingBegin { machine } => TriggerEvent::BlockingBegin { machine: map(machine) },
+            TriggerEvent::TimerBegin { machine } => TriggerEvent::TimerBegin { machine: map(machine) },
+            TriggerEvent::TimerEnd { machine } => TriggerEvent::TimerEnd { machine: map(machine) },
+            other => other.clone(),
+        }
+    };
+    let solo = FwCase {
+        id: c.id.clone(),
+        kind: c.kind.clone(),
+        machines: vec![c.machines[pos].clone()],
+        fp: c.fp,
+        fb: c.fb,
+        t0: c.t0,
+        calls: c.calls.iter().map(|(t, evs)| (*t, evs.iter().map(proj).collect())).collect(),
+        rng_seed: c.rng_seed ^ 0x5555,
+        extreme: 0,
+        ni: None,
+    };
+    let alone = run_actions_only(&solo, None);
+    // keep only the probe's lines of the combined run, relabelled to machine 0
+    let relabel = |s: &String| -> String {
+        s.lines()
+            .filter_map(|l| {
+                let ws: Vec<&str> = l.split_whitespace().collect();
+                if ws.len() > 2 && ws[2] == pos.to_string() {
+                    let mut w: Vec<String> = ws.iter().map(|x| x.to_string()).collect();
+                    w[2] = "0".into();
+                    Some(w.join(" "))
+                } else {
+                    None
+                }
+            })
+            .collect::<Vec<_>>()
+            .join("\n")
+    };
+    let norm = |s: &String| -> String { s.lines().map(|l| l.split_whitespace().collect::<Vec<_>>().join(" ")).collect::<Vec<_>>().join("\n") };
+    for (k, (a, b)) in combined.iter().zip(alone.iter()).enumerate() {
+        if relabel(a) != norm(b) {
+            return Some(format!("ni fail call={}\n", k + 1));
+        }
+    }
+    if combined.len() != alone.len() {
+        return Some(format!("ni fail len {} {}\n", combined.len(), alone.len()));
+    }
+    Some("ni ok\n".into())
 }
